@@ -58,8 +58,9 @@ def compare(chk, model, hscan, items, kind):
             impl = []
             if mm:
                 for part in mm.group(1).split("|"):
-                    if part.startswith("$a="):
-                        impl = [tuple(int(x) for x in e.split("/")) for e in part[3:].split(",") if e]
+                    if part.startswith("$a="):      # a chained string has one entry per piece; the matches hang on one of them
+                        impl += [tuple(int(x) for x in e.split("/")) for e in part[3:].split(",") if e]
+                impl.sort()
             sp = {}
             s_ = spec[(i, bi)]
             if s_.startswith("exception") or s_.startswith("unknown"):
